@@ -261,6 +261,7 @@ def monitor_env():
         "Descendants": descendants,
         "XPathOf": lambda e: e.get_xpath(),
         "Subst": lambda s, text, ctx: s.insert_xpaths(text, ctx),
+        "SubstF": lambda s, text, ctx, cur, par: s.insert_xpaths(text, ctx, cur, par),
         "SubstIn": lambda s, text, ctx: s.insert_xpaths(text, ctx),
         "IsDynamic": lambda d, t: default_is_dynamic(d, t),
         "IovText": lambda s, text, ctx: s.insert_output_values(text, ctx)[0],
@@ -293,7 +294,7 @@ def monitor_env():
         "strip": lambda s: s.strip(),
         "_universe": universe,
     }
-    for k in ("Descendants", "XPathOf", "Subst", "SubstIn", "IovText", "IovFlag", "ElemBinds", "ElemDynDefault",
+    for k in ("Descendants", "XPathOf", "Subst", "SubstF", "SubstIn", "IovText", "IovFlag", "ElemBinds", "ElemDynDefault",
               "RepeatAncestors", "ChildInst", "TemplateInst", "TemplateNode", "FlatKids", "ElemFlat",
               "SectionInstance", "is_a", "has_attr", "HintNode", "ChildControl", "LabelNode", "RepeatDynDefaults", "BuiltControl"):
         env[k] = U(env[k])
@@ -325,6 +326,11 @@ MONITORED = [
     "pyxform.survey.Survey._generate_from_file_instances",
     "pyxform.survey.Survey._get_last_saved_instance",
     "pyxform.question.Question.xml_control",
+    "pyxform.question.MultipleChoiceQuestion.build_xml",
+    "pyxform.question.InputQuestion.build_xml",
+    "pyxform.question.TriggerQuestion.build_xml",
+    "pyxform.question.UploadQuestion.build_xml",
+    "pyxform.question.RangeQuestion.build_xml",
     "pyxform.question.Question._validate_is_not_a_trigger",
     "pyxform.survey.Survey.get_trigger_values_for_question_name",
     "pyxform.section.Section.xml_control",
